@@ -382,8 +382,14 @@ def run(ctx):
     axes = dict(wfn.SPACE)
     extra = [dict(default, shell_order=so, conventions=cv, contraction=cn) for so in axes["shell_order"] for cv in axes["conventions"]
              for cn in (axes["contraction"] if ctx.thorough else ["segmented"])]
+    if ctx.thorough:
+        # ... and shell order x conventions x orbital kind (occupation handling differs per writer and per orbital kind)
+        extra += [dict(default, shell_order=so, conventions=cv, mo=mo) for so in axes["shell_order"] for cv in axes["conventions"] for mo in axes["mo"]]
     seen = {repr(sorted(c.items())) for c in cases}
-    cases += [c for c in extra if repr(sorted(c.items())) not in seen]
+    uniq = {}
+    for c in extra:
+        uniq.setdefault(repr(sorted(c.items())), c)
+    cases += [c for key, c in uniq.items() if key not in seen]
     jobs = [("gen", c, t, a) for c in cases for t in wfn.TARGETS for a in (False, True)]
     # ... and conventions x stored density matrices (x shell set in the thorough tier) for the one target that stores them
     rdm = [dict(default, conventions=cv, extras=ex, shellset=ss) for cv in axes["conventions"] for ex in axes["extras"] if ex.startswith("rdm")
@@ -398,7 +404,7 @@ def run(ctx):
     ctx.cov.update(dbe_k=k, generated_cases=len(cases), corpus_sources=len(files), targets=list(wfn.TARGETS))
     ctx.exhaustive = True
     ctx.rule = (
-        f"deviation-bounded enumeration k<={k} (plus the full products shell order x conventions [thorough: x contraction] and, for FCHK, conventions x stored density matrices x (Cartesian, pure) d shells [thorough: x every shell set]) over centers(6) x shell set(13) x contraction(5) x shell order(7) x conventions(10) x orbitals(9) x extras(7), every case fully crossed with the 5 dumpable "
+        f"deviation-bounded enumeration k<={k} (plus the full products shell order x conventions [thorough: x contraction, and x orbital kind] and, for FCHK, conventions x stored density matrices x (Cartesian, pure) d shells [thorough: x every shell set]) over centers(6) x shell set(13) x contraction(5) x shell order(7) x conventions(10) x orbitals(9) x extras(7), every case fully crossed with the 5 dumpable "
         f"wavefunction formats x allow_changes; plus {len(files)} corpus wavefunction files as sources x 5 x 2. Outcome must be an error or a file that reloads to the same nuclei and, for every orbital, "
         "the same values at 14 probe points (independent evaluator ref/gto.py on source and reloaded object), same occupations/energies/spin and same density for stored density matrices. "
         "Distinct = (deviation set or corpus file, target, allow_changes)."
